@@ -21,6 +21,20 @@ class C33(Check):
 
     def pinned(self, tier):
         yield from lintlib.pinned_lint_cases(tier, per_dialect=2, mutants_per_dialect=2, templates=150, salt=33, fix_mode=False)
+        # loops / variants whose body carries the classic fixable violations (trailing blanks = delete fixes, double
+        # blanks = replace fixes, keyword case, missing final newline) so that every iteration reports them again
+        loops = [
+            "{% for i in items %}\nSELECT {{ i }}  \nFROM t   \n{% endfor %}\n",
+            "SELECT\n{% for c in col_list %}\n    {{ c }},   \n{% endfor %}\n    1 \nFROM t\n",
+            "{% for i in [1, 2, 3] %}select  a  from t{{ i }}  \n{% if not loop.last %}union all  \n{% endif %}{% endfor %}",
+            "{% if flag %}\nSELECT a  \n{% else %}\nSELECT b  \n{% endif %}\nFROM  t   \n",
+            "{% for i in items %}{% for j in [1, 2] %}\nselect '{{ i }}'  ,{{ j }}   \n{% endfor %}{% endfor %}\n",
+            "SELECT a   \nFROM t  \n{% for i in range(n) %}\nWHERE  x = {{ i }}  \n{% endfor %}\n",
+        ]
+        for i, t in enumerate(loops):
+            for rules in ("all", "layout", "LT01,LT02,LT12"):
+                yield {"dialect": "ansi", "templater": "jinja", "sql": t, "context": dict(gens.JCTX), "rules": rules,
+                       "rule_options": {}, "fix": False, "origin": "pinned-loop"}
         for r in gens.templater_corpus():
             if len(r["sql"]) < 700:
                 yield {"dialect": "ansi", "templater": "jinja", "sql": r["sql"], "context": dict(gens.JCTX), "rules": "all",
